@@ -328,14 +328,19 @@ Definition obs_ok (c : mq_cfg) (s : mq) (o : obs) : bool :=
      end
   && Z.eqb (mrecv s) (o_rec o) && Nat.eqb (length (items (mtok s))) (o_tok o) && Z.eqb (mtotal s) (o_tot o).
 
-Fixpoint mq_agree (c : mq_cfg) (s : mq) (l : list (saction * list sout * obs)) : bool :=
+(* tap = false: the scheduler has no next hop (out = None); the model still emits OForward when a transmission ends, but
+   nothing can be observed downstream: only counters, current_packet and Monitor samples are compared *)
+Fixpoint mq_agree' (tap : bool) (c : mq_cfg) (s : mq) (l : list (saction * list sout * obs)) : bool :=
   match l with
   | [] => true
   | (a, outs, o) :: rest =>
       match mq_act c s a with
       | None => false
       | Some (s', outs') =>
-          pkts_eqb (forwards outs') (forwards outs) && sample_ok c (samples outs') (o_mon o) && obs_ok c s' o
-          && mq_agree c s' rest
+          (if tap then pkts_eqb (forwards outs') (forwards outs) else nilb (forwards outs))
+          && sample_ok c (samples outs') (o_mon o) && obs_ok c s' o
+          && mq_agree' tap c s' rest
       end
   end.
+
+Definition mq_agree := mq_agree' true.
